@@ -29,9 +29,30 @@ def harnesses(tier, seed):
     return hs, skipped
 
 
+def tz_results():
+    from vf import zs_regex
+
+    out = []
+    for where, pat, verdict, witness, dt in zs_regex.check_tz_patterns():
+        r = {"name": "L(tzname) subset of L(%s)" % where, "harness": "zs", "smt_checks": 1, "smt_time": dt, "paths": 1}
+        if where == "reachability-twin":
+            r.update(kind="twin", final="witness" if verdict == "sat" else "harness_error",
+                     msg="inclusion correctly fails for a pattern without '-': witness %r" % (witness,), replays=0)
+        elif verdict == "unsat":
+            r.update(kind="main", final="discharged", msg="z3: every tzname text matches %r" % pat)
+        elif verdict == "sat":
+            r.update(kind="main", final="violation", sig="C01/tzname-text-not-accepted-by-pattern", call="parse_timezone(%r)" % witness,
+                     detail={"pattern": pat, "text": witness}, msg="tzname can produce %r which %s rejects" % (witness, where))
+        else:
+            r.update(kind="main", final="inconclusive", msg="z3: %s (%s)" % (verdict, witness))
+        out.append(r)
+    return out
+
+
 def run(tier, seed):
     hs, skipped = harnesses(tier, seed)
-    extra = []
+    hs.append(gen.custom_harness("C01", "tzlemma", schemas.Schema("tzlemma", "int", ""), "lemma"))
+    extra = tz_results()
     for name, variant, err in skipped:
         extra.append({"name": "build:%s:%s" % (name, variant), "harness": "generator", "kind": "main",
                       "final": "harness_error", "msg": err})
@@ -42,5 +63,6 @@ def run(tier, seed):
         assumptions=ASSUMPTIONS,
         functions_note=["generated __mashumaro_to_dict__/__mashumaro_from_dict__ of every schema class",
                         "generated codec encode/decode and their __pack_*/__unpack_* helpers",
-                        "mashumaro.core.helpers.parse_timezone"],
+                        "mashumaro.core.helpers.parse_timezone (leaf lemma L-TZ on symbolic digits; UTC_OFFSET_PATTERN as a z3 regular "
+                        "language, inclusion L(tzname) in L(pattern))"],
         extra_results=extra)
